@@ -56,7 +56,8 @@ BOUNDS = {
              "uniq_int: {0,1,2}^1 N<=6, {0,1,2}^2 N<=4, {0,1}^3 N<=4; "
              "ismember: d=1 <=3 cols, d=2 a<=2 b<=3 cols over {0,1,2}^2, d=3 a<=1 b<=2 over {0,1,2}^3; "
              "intersect: d=1,2 a<=2 b<=2 cols; both tiers: far/scaled cluster frames (origins 1e3,1e5,1e6 on axis and diagonal, x1e3, x1e-3) "
-             "and ismember_columns with 6 mixed dtype pairs (int/float with fractional entries, int32/int64), d=1 <=3 cols, d=2 a 1 col b <=2 cols",
+             "and ismember_columns with 6 mixed dtype pairs (int/float with fractional entries, int32/int64), d=1 <=3 cols, d=2 a 1 col b <=2 cols; signed integer columns (int64/int32, sort T/F): 2 rows entries {-3..3} a 1 col b <=2 cols, "
+             "2 rows {-3,-1,0,2} a,b <=2 cols, 3 rows {-3..3} a,b 1 col, 3 rows {-2,0,3} a 1 col b <=2 cols, 3 rows {-1,2} a,b <=2 cols",
     "thorough": "uniq: d=1 N<=6, d=2 N<=5 scales {0,.9,1,1.1,2}tol, d=3 N<=4 same scales, tol 1e-3; d=2 N<=4 and d=1 N<=5 at tol 1e-6; "
                 "uniq_int: {0,1,2}^1 N<=8, {0,1,2}^2 N<=5, {0,1}^3 N<=5; ismember: d=1 <=4 cols, d=2 a,b<=3 cols, "
                 "d=3 a,b<=2 cols; intersect: d=1,2 a<=3 b<=2 cols, d=3 ({0,1}^3) a<=2 b<=2",
@@ -156,6 +157,15 @@ def cases(tier):
         block = max(1, 30000 // (2 * n_b))
         for lo in range(0, n_a, block):
             out.append({"kind": "ismember", "d": d, "m": m, "na": na, "nb": nb, "lo": lo, "hi": min(n_a, lo + block)})
+    # signed integer columns (entries of both signs, 2 and 3 rows), exhaustive over small column sets
+    for fam in range(len(SIGNED)):
+        d, vals, na, nb = SIGNED[fam]
+        nl = len(vals) ** d
+        n_a = sum(nl**k for k in range(1, na + 1))
+        n_b = sum(nl**k for k in range(1, nb + 1))
+        block = max(1, 60000 // (4 * n_b))
+        for lo in range(0, n_a, block):
+            out.append({"kind": "ismember_signed", "family": fam, "lo": lo, "hi": min(n_a, lo + block)})
     # mixed dtypes: membership is decided on the ORIGINAL values (1 == 1.0, 1 != 1.5)
     for d in (1, 2):
         for combo in range(len(MIXED)):
@@ -498,6 +508,67 @@ MIXED = [
 ]
 
 
+# (rows, entry values, max columns of a, max columns of b)
+SIGNED = [
+    (2, [-3, -2, -1, 0, 1, 2, 3], 1, 2),
+    (2, [-3, -1, 0, 2], 2, 2),
+    (3, [-3, -2, -1, 0, 1, 2, 3], 1, 1),
+    (3, [-2, 0, 3], 1, 2),
+    (3, [-1, 2], 2, 2),
+]
+
+
+def _run_ismember_signed(case, out: Outcome):
+    from porepy.utils.array_operations import ismember_columns
+
+    d, vals, na, nb = SIGNED[case["family"]]
+    lat = list(itertools.product(vals, repeat=d))
+    a_seqs = _seqs(len(lat), na)[case["lo"]: case["hi"]]
+    b_seqs = _seqs(len(lat), nb)
+    keyf = {True: lambda c: tuple(sorted(c)), False: lambda c: tuple(c)}
+    for sa in a_seqs:
+        cols_a = [lat[i] for i in sa]
+        for sb in b_seqs:
+            cols_b = [lat[i] for i in sb]
+            for sort in (True, False):
+                kf = keyf[sort]
+                ka, kb = [kf(c) for c in cols_a], [kf(c) for c in cols_b]
+                exp_mem = [x in kb for x in ka]
+                nm = sum(exp_mem)
+                members = [x for x, t in zip(ka, exp_mem) if t]
+                neg = any(x < 0 for c in cols_a + cols_b for x in c)
+                for dt in ("int64", "int32"):
+                    a = np.array(cols_a, dtype=dt).T.copy()
+                    b = np.array(cols_b, dtype=dt).T.copy()
+                    key = (case["family"], sort, sa, sb) if (neg and dt == "int64") else None
+                    a0, b0 = a.copy(), b.copy()
+                    try:
+                        mem, ia = ismember_columns(a, b, sort=sort)
+                        mem, ia = np.asarray(mem), np.asarray(ia)
+                    except Exception as e:
+                        out.violate("ismember_columns raised (signed integer columns)", error=repr(e), a=a, b=b, dtype=dt, sort=sort)
+                        out.ev("ismember-signed/exception", key)
+                        continue
+                    bad = None
+                    if not (np.array_equal(a, a0) and np.array_equal(b, b0)):
+                        bad = "an input array was modified"
+                    elif mem.shape != (len(sa),) or mem.tolist() != exp_mem:
+                        bad = "membership mask differs from brute-force column comparison"
+                    elif ia.shape != (nm,) or any(not (0 <= int(j) < len(sb)) for j in ia):
+                        bad = "index array has wrong length / range"
+                    elif any(kb[int(j)] != x for j, x in zip(ia, members)):
+                        bad = "b[:, ia] is not the member columns of a"
+                    if bad:
+                        out.violate("ismember_columns (signed integer columns): " + bad, a=a, b=b, dtype=dt, sort=sort, got_mask=mem,
+                                    got_ia=ia, expected_mask=exp_mem)
+                        out.ev("ismember-signed/VIOLATION", key)
+                    else:
+                        out.ev(f"ismember-signed/d{d}/{dt}/sort{int(sort)}/" + ("neg" if neg else "nonneg")
+                               + ("/none" if nm == 0 else "/all" if nm == len(sa) else "/some"), key)
+    if not out.samples:
+        out.samples.append({"rows": d, "entries": vals, "a_first": [list(c) for c in (lat[i] for i in a_seqs[0])], "b": "all sequences of <= %d columns" % nb})
+
+
 def _run_ismember_mixed(case, out: Outcome):
     from porepy.utils.array_operations import ismember_columns
 
@@ -646,6 +717,8 @@ def run_case(case) -> Outcome:
         _run_uniq(case, out)
     elif kind == "uniq_int":
         _run_uniq_int(case, out)
+    elif kind == "ismember_signed":
+        _run_ismember_signed(case, out)
     elif kind == "ismember_mixed":
         _run_ismember_mixed(case, out)
     elif kind == "ismember":
